@@ -142,8 +142,11 @@ def main(argv=None):
     # canaries (non-vacuity): quick runs the first canary of each unit, thorough all
     canary_log = []
     if not a.units or a.canary:
+        undecided_units = set(x[0] for x in undecided)
         for un in unit_names:
             u = harness.UNITS[un]
+            if un in undecided_units:
+                continue      # the unit itself is undecided on this tree: its canaries can say nothing
             cans = u.canaries if a.tier == 'thorough' else u.canaries[:1]
             for cname, mut, expect in cans:
                 if a.canary and a.canary != '%s/%s' % (un, cname):
@@ -165,6 +168,10 @@ def main(argv=None):
                                        not_applicable=(na[0] if na else None)))
                 if na:
                     # the construct the canary mutates is not in the code (any more): nothing to learn from it on this tree
+                    continue
+                if got == {'undecided'}:
+                    # the mutated function left the subset (e.g. the canary's text refers to a local that was renamed): inconclusive
+                    canary_log[-1]['inconclusive'] = True
                     continue
                 if not killed:
                     errors.append((un, cname, 'canary %s still verifies: contract too weak (got %s)' % (cname, sorted(got))))
